@@ -169,15 +169,13 @@ def linear_unit(label, qual, bucket, kwargs_of, helper_quals):
                 args, kw = setup(ex, prior)
                 ex.second = lambda: ex.call_function(VFunc(fi), [res["dets"][1][0]], dict(kwargs_of(ex)), Frame(None, fi.module))
                 return args, kw
-            ps = u.paths(fi, setup_and_second, cfg, label=f"{label}[prior={prior}]")
+            # the second execution (detector b) runs INSIDE the exploration: the branches it takes are explored like those of the first
+            ps = u.paths(fi, setup_and_second, cfg, label=f"{label}[prior={prior}]", then=lambda ex, v: ex.second())
             for p in ps:
                 if p.kind != "return":
                     u.oblige(p, f"linear[{label}].no_raise[prior={prior}]", False, {"exc": p.exc_name()}, LIN_REPLAY)
                     continue
-                # second execution continues on the same path state (may split further: handled as straight-line here)
-                try:
-                    p.ex.second()
-                except PyExc:
+                if p.ex.then_exc is not None:
                     u.oblige(p, f"linear[{label}].second_run_no_raise", False, {}, LIN_REPLAY)
                     continue
                 (da, pa, sa), (db, pb, sb) = res["dets"]
